@@ -1039,3 +1039,17 @@ package core
 //@   modifies fact[*]
 //@   ensures[C07+C13.inject_touches_only_the_id_member] forall(k, string, k != "_id" ==> has(fact, k) == old(has(fact, k)) && fact[k] == old(fact[k]))
 //@   requires[C13.injected_id_does_not_conflict] !(writing && SystemParameters.IdInjectionTime == InjectIdAtWrite && has(fact, "_id") && ite(is(fact["_id"], string), fact["_id"].(string), "") != id)
+
+// ---- C13: constructors of dependency types return usable values (assumed contracts of the dependencies) ------
+//@ extern regexp.Compile
+//@   ensures result1 == nil ==> result0 != nil
+//@   pure-effects
+//@ extern github.com/robertkrimen/otto.New
+//@   ensures result != nil
+//@   pure-effects
+//@ extern (*github.com/boltdb/bolt.Bucket).Cursor
+//@   ensures result != nil
+//@   pure-effects
+//@ extern (*github.com/gocql/gocql.Session).Query
+//@   ensures result != nil
+//@   pure-effects
